@@ -390,6 +390,9 @@ class Interp:
         self.lost_patterns: list[str] = []
         self.cls_fields: dict = {}
         self._aux: dict = {}
+        self.rec_funcs: set = set()
+        self.rec_params: dict = {}
+        self.rec_returns: dict = {}
         self.steps = 0
         self.fold_lists = self.content.concrete
         self.globals_store: dict = {}
@@ -1985,6 +1988,16 @@ class Interp:
                     outs.append(self.lib("builtins.object." + e.attr))
                 else:
                     outs.append(self.unknown_value(f"super().{e.attr}"))
+            elif isinstance(n, Match) and e.attr in ("lastgroup", "lastindex", "string", "re", "pos", "endpos"):
+                if e.attr == "lastgroup":
+                    try:
+                        outs.append(consts([*re.compile(n.pattern.text, n.pattern.flags).groupindex, None]))
+                    except re.error:
+                        outs.append(TOPV)
+                elif e.attr == "re":
+                    outs.append(ref(n.pattern))
+                else:
+                    outs.append(TOPV)
             elif isinstance(n, Pattern):
                 outs.append(const(n.text) if e.attr == "pattern" else const(n.flags) if e.attr == "flags" else self.lib("re.Pattern." + e.attr, ref(n)))
             else:
@@ -2143,6 +2156,21 @@ class Interp:
             self.call_function(init, [ref(r), *args], kwargs, fr, e, bound=True)
             return ref(r)
         ext = self.repo.external_bases(ci)
+        if any(b.endswith("TypedDict") for b in ext):
+            d = self.dict_(fr, e, ("typeddict", ci.fq))
+            if d.fields is None and d.k.bottom:
+                d.fields = {}
+            for k, a in kwargs.items():
+                self.grow_dict(d, const(k), a)
+            for a in args:
+                for o in a.refs:
+                    if isinstance(o, Dict):
+                        if o.fields:
+                            for k, v in o.fields.items():
+                                self.grow_dict(d, const(k), v)
+                        else:
+                            self.grow_dict(d, o.k, o.v)
+            return ref(d)
         names = [a for c in reversed(self.repo.mro(ci)) for a in c.ann_attrs]
         is_record = any(c.is_dataclass for c in self.repo.mro(ci)) or any(b.endswith("NamedTuple") for b in ext)
         if is_record or names:
@@ -2164,8 +2192,62 @@ class Interp:
         return ref(r)
 
     def call_function(self, fi: FuncInfo, args: list[AV], kwargs: dict, fr: Frame, e: ast.AST, bound: bool = False, closure: dict | None = None, star: list | None = None, direct: bool = False) -> AV:
-        if fi.fq in self._stack or fr.depth > MAXDEPTH:
-            return self.unknown_value(f"recursive call of {fi.qualname}", *args)
+        if fr.depth > MAXDEPTH:
+            return self.unknown_value(f"call depth exceeded at {fi.qualname}", *args)
+        if fi.fq in self._stack:
+            # recursion: use what the function is known to return so far (the rounds of the global fixpoint complete it)
+            self.rec_funcs.add(fi.fq)
+            for p, v in zip(fi.param_names, args):
+                key = (fi.fq, p)
+                new = join(self.rec_params.get(key, BOT), v.plain())
+                if new != self.rec_params.get(key):
+                    self.rec_params[key] = new
+                    self.version += 1
+            summary = self.rec_returns.get(fi.fq, BOT)
+            if summary.bottom and not summary.prov:
+                raise _Dead()
+            return summary
+        if "singledispatch" in fi.decorators or "singledispatchmethod" in fi.decorators:
+            impls = [g for g in fi.module.all_funcs if f"{fi.name}.register" in g.decorators and g is not fi]
+            if impls and not direct:
+                outs = []
+                idx = 1 if bound else 0
+                rest = args[idx] if len(args) > idx else BOT
+                for g in impls:
+                    ps = g.params
+                    ann = ps[idx].annotation if len(ps) > idx else None
+                    cls_av = None
+                    if ann is not None:
+                        try:
+                            cls_av = self.ev(ann, {}, Frame(None, g.module, ("ann", g.fq), depth=fr.depth + 1)) if not isinstance(ann, ast.Constant) else self.ev(ast.parse(ann.value, mode="eval").body, {}, Frame(None, g.module, ("ann", g.fq), depth=fr.depth + 1))
+                        except (_Dead, SyntaxError):
+                            cls_av = None
+                    for d in g.node.decorator_list:
+                        if isinstance(d, ast.Call) and d.args:
+                            try:
+                                cls_av = self.ev(d.args[0], {}, Frame(None, g.module, ("ann", g.fq), depth=fr.depth + 1))
+                            except _Dead:
+                                pass
+                    a2 = list(args)
+                    if cls_av is not None and len(a2) > idx:
+                        yes, rest = self.of_class(rest, cls_av)
+                        if yes.bottom:
+                            continue
+                        a2[idx] = yes
+                    try:
+                        outs.append(self.call_function(g, a2, kwargs, fr, e, bound, closure, star, direct=True))
+                    except _Dead:
+                        pass
+                if not rest.bottom or not outs:
+                    a2 = list(args)
+                    if len(a2) > idx:
+                        a2[idx] = rest if not rest.bottom else a2[idx]
+                    try:
+                        outs.append(self.call_function(fi, a2, kwargs, fr, e, bound, closure, star, direct=True))
+                    except _Dead:
+                        if not outs:
+                            raise
+                return join(*outs)
         if fi.is_abstract and not direct:
             impls = [m for m in self.repo.implementations(fi.cls, fi.name) if not m.is_abstract] if fi.cls is not None else []
             if not impls:
@@ -2201,6 +2283,8 @@ class Interp:
                     env[p] = BOT
         for p in [*pos, *[x.arg for x in a.kwonlyargs]]:
             env.setdefault(p, BOT)
+            if (fi.fq, p) in self.rec_params:
+                env[p] = join(env[p], self.rec_params[(fi.fq, p)])
         if isinstance(node, ast.Lambda):
             try:
                 return self.ev(node.body, env, nfr)
@@ -2217,10 +2301,17 @@ class Interp:
         if is_gen:
             if out is None and not nfr.completed:
                 raise _Dead()  # the body always raises: so does iterating the generator
+            if "contextmanager" in fi.decorators:
+                return nfr.gen.elem  # `with cm() as x`: x is what the generator yields
             return ref(nfr.gen)
         if out is not None:
             nfr.returns = join(nfr.returns, NONE)
             nfr.completed = True
+        if fi.fq in self.rec_funcs and nfr.completed:
+            new = join(self.rec_returns.get(fi.fq, BOT), nfr.returns)
+            if new != self.rec_returns.get(fi.fq):
+                self.rec_returns[fi.fq] = new
+                self.version += 1
         if not nfr.completed:
             raise _Dead()
         return nfr.returns
@@ -2421,6 +2512,8 @@ class Interp:
                         ng = 0
                     t.items = [self.group_value(m, i + 1) for i in range(ng)]
                     outs.append(ref(t))
+                elif how == "expand":
+                    outs.append(replace(self.group_value(m, None), consts=frozenset()))
                 elif how in ("start", "end"):
                     outs.append(TOPV)
                 elif how == "span":
@@ -2523,6 +2616,48 @@ class Interp:
                     if isinstance(o, Dict):
                         self.grow_dict(d, o.k, o.v)
             return ref(d)
+        if name == "collections.ChainMap":
+            d = self.dict_(fr, e, "chainmap")
+            for a in args:
+                for o in a.refs:
+                    if isinstance(o, Dict):
+                        self.grow_dict(d, o.k, o.v)
+            return ref(d)
+        if name == "itertools.starmap":
+            s_ = self.seq(fr, e, "iter", "starmap")
+            el = self.iterate(args[1], None, fr, None) if len(args) > 1 else BOT
+            for t in el.refs:
+                if isinstance(t, Seq) and t.items is not None:
+                    self.grow_elem(s_, self.call_value(a0, list(t.items), {}, fr, e, tag=("starmap", t.key)))
+                elif isinstance(t, View) and t.kind == "pair":
+                    self.grow_elem(s_, self.call_value(a0, [t.d.k, via(t.d.v)], {}, fr, e, tag=("starmap", t.key)))
+                else:
+                    self.grow_elem(s_, self.unknown_value("starmap over tuples of unknown length", ref(t)))
+            for c in el.consts:
+                if isinstance(c.v, tuple):
+                    self.grow_elem(s_, self.call_value(a0, [const(x) for x in c.v], {}, fr, e, tag=("starmap", c)))
+            return ref(s_)
+        if name in ("itertools.zip_longest",):
+            return self.builtin("zip", args, {}, fr, e, star, env)
+        if name in ("itertools.islice", "itertools.takewhile", "itertools.dropwhile", "itertools.filterfalse", "itertools.tee", "itertools.cycle", "itertools.accumulate", "itertools.pairwise"):
+            src_av = args[1] if name in ("itertools.takewhile", "itertools.dropwhile", "itertools.filterfalse") and len(args) > 1 else a0
+            s_ = self.seq(fr, e, "iter", name)
+            el = self.iterate(src_av, None, fr, None)
+            if name == "itertools.tee":
+                inner = self.seq(fr, e, "iter", "tee-inner")
+                self.grow_elem(inner, el)
+                t = self.seq(fr, e, "tuple", "tee")
+                t.items = [ref(inner), ref(inner)]
+                return ref(t)
+            if name == "itertools.pairwise":
+                t = self.seq(fr, e, "tuple", "pairwise")
+                t.items = [el.plain(), el.plain()]
+                self.grow_elem(s_, ref(t))
+                return ref(s_)
+            self.grow_elem(s_, el)
+            return ref(s_)
+        if name in ("functools.singledispatch", "functools.singledispatchmethod", "contextlib.contextmanager", "functools.total_ordering", "dataclasses.dataclass", "typing.final", "typing.overload", "abc.abstractmethod"):
+            return a0 if args else self.lib("identity-decorator")
         if name in ("collections.OrderedDict",):
             return self.builtin("dict", args, kwargs, fr, e, star)
         if name in ("itertools.chain", "itertools.chain.from_iterable"):
